@@ -64,7 +64,7 @@ NoCfg == [ok |-> {}, bad |-> {}]
 ManualValid(m) == m # "bad"
 ManualSem(m, s) ==
     CASE m = "none"    -> s
-      [] m = "delA"    -> {i \in s : i \notin Inst \/ SvcOf[i] # "A"}
+      [] m = "delA"    -> {i \in s : i \notin Inst \/ SvcOf[i] \notin {"A", "C"}}   \* "C": the second /a instance registered under a name of its own
       [] m = "weightA" -> s                \* weights only; a no-op when A has no target
       [] m = "addX"    -> s \cup {"X"}
       [] OTHER         -> s
